@@ -56,7 +56,8 @@ FrPolSources == <<
               FrP("policy1", "forbid", FAny, <<"eq", TEdit>>, FAny, FrWhen(B_("less", G_(Pv, "n"), LitL(5))), FrNoAnn, {})>>],
   [shape |-> "map", good |-> TRUE, cli |-> TRUE, text |-> TRUE,
    pols |-> <<FrP("a", "permit", FAny, FAny, FAny, FrWhen(B_("eq", G_(Pv, "n"), LitL(1))), FrNoAnn, {}),
-              FrP("b", "forbid", FAny, FAny, FAny, FrWhen(B_("less", G_(G_(Pv, "mgr"), "n"), LitL(0))), FrNoAnn, {"optional"})>>],
+              FrP("b", "forbid", FAny, FAny, FAny, FrWhen(B_("less", G_(G_(Pv, "mgr"), "n"), LitL(0))), FrNoAnn, {"optional"}),
+              FrP("c", "permit", <<"eq", TU2>>, <<"in", TAll>>, FAny, <<>>, FrNoAnn, {})>>],
   [shape |-> "json", good |-> TRUE, cli |-> TRUE, text |-> TRUE,
    pols |-> <<FrP("j", "permit", <<"is", "User">>, <<"eq", TView>>, FAny, <<<<"unless", G_(Cv, "flag")>>>>, FrNoAnn, {})>>],
   [shape |-> "links", good |-> TRUE, cli |-> TRUE, text |-> TRUE,
